@@ -1,5 +1,5 @@
 use log::debug;
-use std::collections::HashSet;
+use std::collections::{HashMap, HashSet};
 use std::fmt;
 use std::time::{Instant, Duration};
 
@@ -506,15 +506,34 @@ impl Cfg {
         // Signals and components are not versioned. One that is assigned by more than one
         // statement may hold a different value on each path (even if only one of the assigned
         // expressions is a constant), so it is never treated as a constant.
-        let mut assigned = HashSet::new();
+        let mut assigned = HashMap::new();
         for basic_block in self.iter() {
-            for stmt in basic_block.iter() {
+            for (position, stmt) in basic_block.iter().enumerate() {
                 if let Statement::Substitution { var, rhe, .. } = stmt {
                     if var.version().is_none()
                         && !matches!(rhe, Expression::Update { .. })
-                        && !assigned.insert(var.clone())
+                        && assigned.insert(var.clone(), (basic_block.index(), position)).is_some()
                     {
                         env.set_non_constant(var);
+                    }
+                }
+            }
+        }
+        // The assignment may be on some paths only. The variable is treated as a constant only
+        // if the assignment comes before every statement that reads it, on every path.
+        for basic_block in self.iter() {
+            let dominators = self.dominator_tree.get_dominators(basic_block.index());
+            for (position, stmt) in basic_block.iter().enumerate() {
+                for var in stmt.variables_read() {
+                    if let Some((index, assigned_at)) = assigned.get(var.name()) {
+                        let assigned_before = if *index == basic_block.index() {
+                            assigned_at <= &position
+                        } else {
+                            dominators.contains(index)
+                        };
+                        if !assigned_before {
+                            env.set_non_constant(var.name());
+                        }
                     }
                 }
             }
